@@ -40,6 +40,8 @@ func (r *verifRecorder) WriteHeader(code int) {
 }
 
 var (
+	verifShimSeen  bool
+	verifShimReq   messages.ClientPollRequest
 	verifBodyBytes []byte
 	verifBodyErr   bool
 	verifNATHeader string
@@ -69,6 +71,9 @@ func verifJSONMarshal14(v interface{}) ([]byte, error) {
 	switch x := v.(type) {
 	case *messages.ClientPollRequest:
 		verifJSONLast = *x
+		if !verifShimSeen {
+			verifShimSeen, verifShimReq = true, *x
+		}
 	case *messages.ClientPollResponse:
 		verifJSONLast = *x
 	default:
@@ -121,6 +126,11 @@ func VerifC14_LegacyClient() {
 	}
 	SnowflakeHandler{i, clientOffers}.ServeHTTP(w, r)
 	verifapi.Cover("legacy request answered")
+	// the shim hands the matching logic exactly the versioned equivalent: the body as the
+	// offer, the header as the NAT type
+	verifapi.Assert(verifShimSeen, "the legacy request is re-encoded as a versioned poll")
+	verifapi.Assert(verifShimReq.Offer == string(verifBodyBytes), "the legacy body becomes the offer of the versioned poll")
+	verifapi.Assert(verifShimReq.NAT == verifNATHeader, "the Snowflake-NAT-Type header becomes the NAT type of the versioned poll")
 	valid := verifNATHeader == "" || verifNATHeader == "unknown" || verifNATHeader == "restricted" || verifNATHeader == "unrestricted"
 	if valid {
 		verifapi.Cover("legacy: valid NAT header")
